@@ -781,6 +781,15 @@ func overtakenJudge(rp *reporter, idx int, rng *rand.Rand, rec *chain.RecDB, ser
 		r.Count("rpc.overtaken.request_for_the_old_head_refused_as_historical", 1)
 		return nil
 	}
+	if resp.Error != nil && resp.Error.Code == -32603 {
+		// "Internal error": the handler tripped over its own reads (state opened for one block, tries /
+		// records read after the next block was committed). Same call site, same history, same cause
+		// as a response that does not verify: one finding (seen once in 2.4k overtaken requests of a
+		// thorough run: new-state backend, v0.10, block 2 committed after read #27)
+		r.Count("rpc.overtaken.symptom:internal-error", 1)
+		rp.viol(classProofOvertaken, idx, fmt.Sprintf("%s/%s, request for %s overtaken by block %d after its read #%d of %d: answered with -32603 Internal error", backend, q.Version, q.BlockID, n, k, nreads), wit("internal error"))
+		return nil
+	}
 	if resp.Error != nil {
 		rp.viol(fmt.Sprintf("rpc:overtaken:head-request-refused:code%d", resp.Error.Code), idx,
 			fmt.Sprintf("%s/%s: request for %s answered with error %d %s", backend, q.Version, q.BlockID, resp.Error.Code, resp.Error.Message), wit("refused"))
